@@ -388,8 +388,11 @@ namespace chaiscript {
                                         assert(children.size() == 1);
                                         chaiscript::eval::detail::Scope_Push_Pop spp(t_ss);
 
-                                        int i = start_int;
-                                        t_ss.add_object(id, var(&i));
+                                        // the loop variable is an ordinary script value: it must be able to
+                                        // outlive this frame when a lambda captures it
+                                        const auto loop_var = std::make_shared<int>(start_int);
+                                        int &i = *loop_var;
+                                        t_ss.add_object(id, var(loop_var));
 
                                         try {
                                           for (; i < end_int; ++i) {
